@@ -105,6 +105,20 @@ def load_after_store():
         _t("export function f(int a, int b, int i) -> int { int[3] p; int[3] q; q[0] = a; p = q; p[i] = b; return p[0] + p[1] * 2 + p[2] * 4; }", "array copy then element store", bounds={"i": (0, 2)}),
         _t("int[3] g;\nexport function f(int a, int i) -> int { int[3] q; q[1] = a; g = q; return g[i]; }", "global array store then index", bounds={"i": (0, 2)}),
         _t("export function f(float3 a, float3 b, int i) -> float3 { float3[2] p; float3[2] q; q[0] = a; q[1] = b; p = q; return p[i]; }", "array of vectors copy", bounds={"i": (0, 1)}),
+        # the copy is written, the source is read afterwards (and the other way round): a forwarded aggregate must not alias its source
+        _t("export function f(int a, int b, int i) -> int { int[3] p; int[3] q; q[0] = a; q[1] = a; q[2] = a; p = q; p[i] = b; return q[0] + q[1] * 2 + q[2] * 4 + p[i] * 8; }", "array copy, write copy, read source", bounds={"i": (0, 2)}),
+        _t("export function f(int a, int b, int i) -> int { int[3] p; int[3] q; q[i] = a; p = q; q[i] = b; return p[i] * 2 + q[i]; }", "array copy, write source, read copy", bounds={"i": (0, 2)}),
+        _t("export function f(int[3] q, int b, int i) -> int { int[3] p; p = q; p[i] = b; return q[0] + q[1] * 2 + q[2] * 4; }", "array parameter copied then copy written", bounds={"i": (0, 2)}),
+        _t("int[3] g;\nexport function f(int b, int i) -> int { int[3] p; p = g; p[i] = b; return g[0] + g[1] * 2 + g[2] * 4; }", "global array copied then copy written", bounds={"i": (0, 2)}),
+        _t("int[3] g;\nexport function f(int b, int i) -> int { int[3] p; p[0] = b; g = p; p[i] = 7; return g[0] + g[1] * 2 + g[2] * 4; }", "local array stored to global then written", bounds={"i": (0, 2)}),
+        _t("export function f(int a, int b, int i, int j) -> int { int[2][2] p; int[2][2] q; q[i][j] = a; p = q; p[i][j] = b; return q[i][j] * 2 + p[i][j]; }", "2d array copy then write", bounds={"i": (0, 1), "j": (0, 1)}),
+        _t(S + "export function f(int a, float b) -> float { S s; S t; t.i = a; t.f = b; s = t; s.i = 100; s.f = 5.0; return t.f + t.i; }", "struct copy, write copy, read source"),
+        _t(S + "export function f(int a, float b) -> float { S s; S t; t.i = a; s = t; t.i = 100; return s.i + t.i * 2.0 + b; }", "struct copy, write source, read copy"),
+        _t(S + "S g;\nexport function f(int a) -> float { S t; t = g; t.i = a; return g.i + t.i * 2.0; }", "global struct copied then copy written"),
+        _t(S + "S g;\nexport function f(int a) -> float { S t; t.i = a; g = t; t.i = 100; return g.i + t.i * 2.0; }", "local struct stored to global then written"),
+        _t("struct V { float3 v; int[2] arr; }\nexport function f(float3 a, int b, int i) -> float { V s; V t; t.v = a; t.arr[i] = b; s = t; s.v.x = 9.0; s.arr[i] = 7; return t.v.x + t.arr[i] + s.v.x * 2.0; }", "struct with aggregate fields copied", bounds={"i": (0, 1)}),
+        _t("export function f(float3 a, float b) -> float3 { float3 p; float3 q; q = a; p = q; p.x = b; p[1] = b; return q; }", "vector copy, write copy, read source"),
+        _t("export function f(float3x3 a, float b, int i) -> float3x3 { float3x3 p; float3x3 q; q = a; p = q; p[i][i] = b; return q; }", "matrix copy, write copy, read source", bounds={"i": (0, 2)}),
     ]
     return out
 
